@@ -95,31 +95,48 @@ Definition probe_can (probe : bool) (m : machine) (ev : event) (s : st) : st :=
   if probe then logo (OCan (can m (s_cfg s) (s_ctx s) ev)) s else s.
 
 (* K-macro-s: snapshots after start() and after each send() *)
-Fixpoint sync_snaps (probe : bool) (m : machine) (s : st) (evs : list event) : list (list tok) :=
-  match evs with
+(* an operation is a list of events: one event = send(ev), several = send_events([...]) *)
+Definition probe_op (probe : bool) (m : machine) (op : list event) (s : st) : st :=
+  match op with [ev] => probe_can probe m ev s | _ => s end.
+Fixpoint sync_snaps (probe : bool) (m : machine) (s : st) (ops : list (list event)) : list (list tok) :=
+  match ops with
   | [] => []
-  | ev :: r => let s' := catch (sync_send m ev) (probe_can probe m ev s) in flat_st s' :: sync_snaps probe m s' r
+  | op :: r => let s' := catch (sync_send_events m op) (probe_op probe m op s) in flat_st s' :: sync_snaps probe m s' r
   end.
-Definition sync_case (probe : bool) (m : machine) (cx : ctx) (evs : list event) : list (list tok) :=
+Definition sync_case (probe : bool) (m : machine) (cx : ctx) (evs : list (list event)) : list (list tok) :=
   let s0 := catch (sync_start m) (st_init cx) in flat_st s0 :: sync_snaps probe m s0 evs.
 
 (* K-macro-a: snapshots at quiescence after start() and after each send() *)
 Definition async_fuel : nat := 400.
-Fixpoint async_snaps (probe : bool) (m : machine) (s : st) (evs : list event) : list (list tok) :=
-  match evs with
+Fixpoint async_snaps (probe : bool) (m : machine) (s : st) (ops : list (list event)) : list (list tok) :=
+  match ops with
   | [] => []
-  | ev :: r => match async_loop async_fuel m (async_send ev (probe_can probe m ev s)) with
+  | op :: r => match async_loop async_fuel m (fold_left (fun s' ev => async_send ev s') op (probe_op probe m op s)) with
                | (s', false) => flat_st s' :: async_snaps probe m s' r
                | (_, true) => [[TS "TIMEOUT"]]
                end
   end.
-Definition async_case (probe : bool) (m : machine) (cx : ctx) (evs : list event) : list (list tok) :=
+Definition async_case (probe : bool) (m : machine) (cx : ctx) (evs : list (list event)) : list (list tok) :=
   match async_loop async_fuel m (catch (async_start m) (st_init cx)) with
   | (s0, false) => flat_st s0 :: async_snaps probe m s0 evs
   | (_, true) => [[TS "TIMEOUT"]]
   end.
 
 Definition snaps_eqb := list_eqb toks_eqb.
-(* a macro case: machine, engine, runs = (initial ctx, events, implementation snapshots) *)
-Definition check_macro (eng : engine) (probe : bool) (m : machine) (runs : list (ctx * list event * list (list tok))) : list nat :=
-  bad_idx (fun r => snaps_eqb (match eng with Sync => sync_case | Async => async_case end probe m (fst (fst r)) (snd (fst r))) (snd r)) runs.
+Definition is_timeout (t : list tok) : bool := match t with [TS s] => String.eqb s "TIMEOUT" | _ => false end.
+(* a macro case: machine, engine, runs = (initial ctx, events, implementation snapshots).
+   Result: (indices of runs that differ, indices of runs on which the MODEL ran out of fuel -
+   inconclusive: the harness counts them, they are not disagreements). *)
+Fixpoint check_runs (i : nat) (f : ctx -> list (list event) -> list (list tok)) (runs : list (ctx * list (list event) * list (list tok)))
+  : list nat * list nat :=
+  match runs with
+  | [] => ([], [])
+  | r :: rest =>
+      let mine := f (fst (fst r)) (snd (fst r)) in
+      let (bad, tmo) := check_runs (S i) f rest in
+      if existsb is_timeout mine then (bad, i :: tmo)
+      else if snaps_eqb mine (snd r) then (bad, tmo)
+      else (i :: bad, tmo)
+  end.
+Definition check_macro (eng : engine) (probe : bool) (m : machine) (runs : list (ctx * list (list event) * list (list tok))) :=
+  check_runs 0 (match eng with Sync => sync_case | Async => async_case end probe m) runs.
